@@ -278,6 +278,36 @@ pub fn run(r: &Runner) {
             buf[pos] = val;
             check(r, ctx, l, &scanner_rec(backend, class, *cell, buf, 0, Placement::End))
         });
+        // very long buffers (8x unrolled loops, counters): selected lengths 301..=4200
+        let vl: Vec<usize> = {
+            let mut v: Vec<usize> = vec![];
+            for b in [320usize, 384, 448, 512, 640, 768, 1024, 1536, 2048, 4096] {
+                for d in [-1i64, 0, 1, 17, 33] {
+                    v.push((b as i64 + d) as usize);
+                }
+            }
+            if r.quick() { v.into_iter().step_by(2).collect() } else { v }
+        };
+        const VV: [u8; 12] = [0x00, 0x09, 0x0a, 0x0d, 0x1f, 0x20, 0x3a, 0x7f, 0x80, 0xff, b'(', 0x0b];
+        let mut lo3 = vec![0u64];
+        for &len in &vl {
+            lo3.push(lo3.last().unwrap() + len as u64);
+        }
+        let total = *lo3.last().unwrap() * VV.len() as u64 * pcombos.len() as u64;
+        r.par_enum(&format!("{}: {} lengths in 319..=4129 (around multiples of 64..4096) × every position × 12 boundary values, boundary-mix filler", label, vl.len()), total, |ctx, l, idx| {
+            let mut x = idx;
+            let val = VV[(x % VV.len() as u64) as usize];
+            x /= VV.len() as u64;
+            let (backend, class) = pcombos[(x % pcombos.len() as u64) as usize];
+            x /= pcombos.len() as u64;
+            let li = lo3.partition_point(|&o| o <= x) - 1;
+            let len = vl[li];
+            let pos = (x - lo3[li]) as usize;
+            let mut rng = Lcg(mix(idx));
+            let mut buf: Vec<u8> = (0..len).map(|i| filler(class, 1 + (idx % 2), i, &mut rng)).collect();
+            buf[pos] = val;
+            check(r, ctx, l, &scanner_rec(backend, class, *cell, buf, 0, Placement::End))
+        });
         // all-in-class buffers of every length (stop at end of buffer), all 64 interior
         // offsets + start-abutting + end-abutting
         r.par_enum(&format!("{}: all-in-class buffers of every length 0..=400 × 66 placements × 3 fillers", label), 401 * 66 * 3 * pcombos.len() as u64, |ctx, l, idx| {
@@ -344,6 +374,33 @@ pub fn run(r: &Runner) {
             // start cursor: 0, just after the first offender, or at the first offender
             let start = match sc { 0 => 0, 1 => p + 1, _ => p };
             check(r, ctx, l, &scanner_rec(backend, class, *cell, buf, start, Placement::End))
+        });
+    }
+    // pairs of offenders deep inside long buffers (deferred checks that are skipped on one exit)
+    {
+        let direct: Vec<(u8, u8)> = cs.iter().cloned().filter(|c| c.0 != B_DISPATCH).collect();
+        const LENS: [usize; 3] = [300, 700, 1300];
+        const PAIRS: [(u8, u8); 6] = [(0x7f, 0x20), (0x7f, 0x0d), (0x00, 0x7f), (0x0a, 0x7f), (0x7f, 0x7f), (0x1f, 0x3a)];
+        const GAPS: [usize; 6] = [1, 2, 17, 33, 64, 129];
+        let per_len: u64 = 160;
+        let total = direct.len() as u64 * LENS.len() as u64 * per_len * PAIRS.len() as u64 * GAPS.len() as u64;
+        r.par_enum("direct backends: pairs of offenders deep inside 300/700/1300-byte buffers: first offender at 160 positions in the last 60% × 6 gaps × 6 byte pairs, random in-class filler", total, |ctx, l, idx| {
+            let mut x = idx;
+            let gap = GAPS[(x % 6) as usize];
+            x /= 6;
+            let (b1, b2) = PAIRS[(x % 6) as usize];
+            x /= 6;
+            let pk = x % per_len;
+            x /= per_len;
+            let len = LENS[(x % 3) as usize];
+            let (backend, class) = direct[(x / 3) as usize];
+            let p = len * 2 / 5 + (pk as usize * (len * 3 / 5 - 140)) / per_len as usize;
+            let q = (p + gap).min(len - 1);
+            let mut rng = Lcg(mix(idx));
+            let mut buf: Vec<u8> = (0..len).map(|i| filler(class, 2, i, &mut rng)).collect();
+            buf[p] = b1;
+            buf[q] = b2;
+            check(r, ctx, l, &scanner_rec(backend, class, 0, buf, 0, Placement::End))
         });
     }
     set_backend(0);
